@@ -52,6 +52,16 @@ fn run_body(cfg: &SwarmCfg, seed: u64, replay: Option<&[Step]>) -> RunOutcome {
             out.violation = Some(v);
         }
     }
+    let rc = crate::crypto::rec_counts();
+    if rc.6 > 0 {
+        *w.stats.checks.entry("provider-cross-comparisons".into()).or_default() += rc.6;
+    }
+    if cfg.cross.is_some() || cfg.providers.len() > 1 {
+        for p in &w.parties {
+            *w.stats.probes.entry(format!("party-provider:{}", p.provider.name())).or_default() += 1;
+        }
+        *w.stats.probes.entry(format!("suite:{}", cfg.suite)).or_default() += 1;
+    }
     out.trace = std::mem::take(&mut w.trace);
     out.stats = w.stats.clone();
     out.log_hash = w.log_hash();
